@@ -1133,7 +1133,12 @@ func isWildcardASN(lhs string) bool {
 
 func isWildcardLocal(s string) bool {
 	s = strings.TrimSuffix(s, "$")
-	return strings.HasSuffix(s, `:\d+`) || strings.HasSuffix(s, `:[0-9]+`) || strings.HasSuffix(s, `:.*`)
+	idx := strings.IndexByte(s, ':')
+	if idx < 0 {
+		return false
+	}
+	rest := s[idx+1:]
+	return rest == `\d+` || rest == `[0-9]+` || rest == `.*`
 }
 
 func parseLocalAdminSet(rhs string) (*localAdminBitmap, bool) {
